@@ -27,6 +27,8 @@ func main() {
 	commands["apicancel"] = cmdApiCancel
 	commands["ctxiow"] = cmdCtxIOW
 	commands["stubctx"] = cmdStubCtx
+	commands["bridgeexit"] = cmdBridgeExit
+	commands["emit"] = cmdEmit
 	commands["acthelper"] = cmdActHelper
 	if len(os.Args) < 2 {
 		fmt.Fprintln(os.Stderr, "usage: vdriver <command> [flags]")
